@@ -120,6 +120,15 @@ struct Foo {
 Definition w_rs_block : sfile := F Rs ".rs" [L LCode "struct Foo {"; L LBlockComment "/* block */"; L LCode "a: i32,"; L LCode "}"] [] [S' "Foo" [] false 1 0 4] [].
 Definition c_rs_block : config := [("srp", [("max_loc", VNat 3); ("check_keywords", VBool false)])].
 
+(* ts_class_expr:
+const Box = class BoxImpl {
+  a() { return 1; }
+  b() { return 1; }
+};
+*)
+Definition w_ts_class_expr : sfile := F Ts ".ts" [L LCode "const Box = class BoxImpl {"; L LCode "a() { return 1; }"; L LCode "b() { return 1; }"; L LCode "};"] [C "BoxImpl" CExprNamed 1 12 0 4 [M MPlain "a"; M MPlain "b"]] [] [].
+Definition c_ts_class_expr : config := [("srp", [("max_methods", VNat 1); ("check_keywords", VBool false)])].
+
 Theorem C16_py_hash_in_string_refuted :
   file_good w_py_hash = true /\ report srp_actual c_py_hash w_py_hash <> spec_report c_py_hash w_py_hash
   /\ report (with_flag 0 srp_actual) c_py_hash w_py_hash = spec_report c_py_hash w_py_hash.
@@ -159,6 +168,14 @@ Theorem C16_py_cached_property_counted_refuted :
   file_good w_py_cached = true /\ report srp_actual c_py_cached w_py_cached <> spec_report c_py_cached w_py_cached
   /\ report (with_flag 7 srp_actual) c_py_cached w_py_cached = spec_report c_py_cached w_py_cached.
 Proof. vm_compute. split; [reflexivity | split; [discriminate | reflexivity]]. Qed.
+
+(* a class expression with two public methods under max_methods = 1: the specification reports it, the faithful model (like the
+   implementation) reports nothing *)
+Theorem C16_ts_class_expr_skipped_refuted :
+  file_good w_ts_class_expr = true /\ report srp_actual c_ts_class_expr w_ts_class_expr <> spec_report c_ts_class_expr w_ts_class_expr
+  /\ report srp_actual c_ts_class_expr w_ts_class_expr = []
+  /\ report (with_flag 8 srp_actual) c_ts_class_expr w_ts_class_expr = spec_report c_ts_class_expr w_ts_class_expr.
+Proof. vm_compute. split; [reflexivity | split; [discriminate | split; reflexivity]]. Qed.
 
 (* fixed by c90fc92: the old witness of q_ts_loc_raw_span now meets the specification *)
 Example C16_ts_loc_raw_span_fixed_regression :
